@@ -66,18 +66,18 @@ PROPS = {
                 "equal gates, shared and unused gates, zero-size sections, all 8 (trim, structural_hash, const_fold) combinations; "
                 "ill-formed graphs: cycles (self loops, through negated edges, rings of up to 64 gates, behind finished sub-graphs, "
                 "reachable or not), undefined literals in every section, doubly defined literals (input/input, input/gate, gate/gate, "
-                "constant, either polarity), latch-state clashes; chains of 2000 gates (thorough: 8000) entered from the top, "
-                "acyclic and cyclic; trace = whole OrderedAig + Aig::from numbering + lit_map().get of every literal of the case, "
-                "or error kind + literal; non-trivial = at least 2 gates; distinct by case text",
+                "constant, either polarity), latch-state clashes (constant, input, gate output, other latch; either polarity; any "
+                "position), combinations of two defects; chains of 2000 gates (thorough: 8000) entered from the top, acyclic and "
+                "cyclic; trace = whole OrderedAig + Aig::from numbering + lit_map().get of every literal of the case, or error "
+                "kind + literal; non-trivial = at least 2 gates; distinct by case text",
         "theorems_note": "Props/C12.v: order/numbering of every successful result; equivalence of every output, next-state, bad, "
-                         "constraint, justice, fairness literal and every lit_map entry for all assignments, all graphs without a "
-                         "doubly defined variable, all 8 option combinations; each error kind implies the corresponding defect; "
-                         "no unwrap panic; no OutOfFuel for any graph, cyclic or not (orbit argument for the middle-of-the-stack test + potential); "
-                         "C12_latch_clash_refuted (finding D10)",
+                         "constraint, justice, fairness literal and every lit_map entry for all assignments, for every graph for "
+                         "which a circuit is returned (no well-formedness hypothesis), all 8 option combinations; LitAlreadyDefined l "
+                         "iff l is the first literal in checking order (constant, inputs, gates, latches) whose variable was "
+                         "defined before; wf_defs iff no LitAlreadyDefined; latch clashes rejected with the latch's state literal; "
+                         "LitNotDefined / FoundCycle imply the defect; no unwrap panic; no OutOfFuel for any graph, cyclic or not",
         "assumes": ["zwohash::HashMap as a finite map (std++ gmap); literal type usize, codes as unbounded N (no overflow of "
                     "last_code += 2 below 2^63 gates; the truncating `code as u8/u16/u32` of narrower literal types is not modelled)",
-                    "wf_defs (no variable defined twice, latch states included) is a hypothesis of C12_sound: on the unchanged "
-                    "code a latch state clash is not reported (finding D10, C12_latch_clash_refuted)",
                     "the transfer loop runs on fuel 32*(#gates+2) per call in the model; C12_terminates proves it is never exhausted",
                     "symbols and comment are cloned unchanged by renumber_aig and are not modelled; 'no recursion' is structural "
                     "(explicit stack) and is exercised by the deep chains"],
@@ -157,5 +157,116 @@ PROPS = {
                 "{1,3,64,4096,16384} x read sizes x item sizes {20,300,5000}; counting global allocator; every case is non-trivial",
         "theorems_note": "Props/C10.v: reader buffer length <= 3*chunk + window for every history, independent of bytes consumed",
         "assumes": ["Vec capacity policy, shrink_to_fit and allocator overhead are runtime behaviour: measured, not proved (partial)"],
+    },
+    "C04": {
+        "streams": [
+            {"name": "o_c04", "module": "pa", "quick": 4000, "thorough": 60000, "kind": "oracle", "profiles": ["debug", "release"],
+             "args": {"kind": "fault"}},
+            {"name": "pa", "module": "pam", "quick": 2000, "thorough": 30000, "profiles": ["debug"], "oracle_prefix": "o_c01"},
+            {"name": "pa_fixed", "module": "fixed", "quick": 0, "thorough": 0, "kind": "oracle", "profiles": ["debug", "release"]},
+        ],
+        "rule": "documents for all seven parsers x source schedules, the source failing after k bytes (k = 0, end-1, end, line "
+                "ends, random); the oracle demands: never a clean end, IoError as the final result unless the non-failing run on the same "
+                "prefix reports the same syntax error, items before the error equal to the items of the non-failing run; the pa "
+                "correspondence stream runs the DIMACS/log programs of the model on failing schedules too; non-trivial = document of at "
+                "least 8 bytes",
+        "theorems_note": "Props/C04.v: parked error kept until taken; give_up* report the parked error; eof refuses a failing stream; "
+                         "results obtained before the end of the delivered data are the results on every continuation",
+        "assumes": ["honest sources up to the failure; AIGER/BTOR2 parsers not modelled (oracle only)"],
+    },
+    "C09": {
+        "streams": [
+            {"name": "o_c09", "module": "pa", "quick": 2500, "thorough": 30000, "kind": "oracle", "profiles": ["debug", "release"],
+             "args": {"kind": "line"}},
+            {"name": "rd", "module": "rd", "quick": 2000, "thorough": 30000, "profiles": ["debug"], "oracle_prefix": "o_rd"},
+            {"name": "pa", "module": "pam", "quick": 1500, "thorough": 20000, "profiles": ["debug"], "oracle_prefix": "o_c01"},
+        ],
+        "rule": "documents rendered line by line, the source handing out exactly one line per read: item i must be returned after "
+                "at most the reads that deliver the line completing it (header, clauses, AIGER section entries, BTOR2 lines); reader "
+                "histories compare the number of read() calls with the model after every operation; the pa stream compares the total "
+                "number of calls of whole parses; non-trivial = at least 16 bytes",
+        "theorems_note": "Props/C09.v: one successful read per refill, none when satisfied, none after the terminal event; newline / "
+                         "next_newline ask for nothing beyond the line break",
+        "assumes": ["per-item look-ahead of the whole parsers is checked by the line oracle, not yet a theorem (partial)"],
+    },
+    "C05": {
+        "streams": [
+            {"name": "o_c05", "module": "pa", "quick": 5000, "thorough": 80000, "kind": "oracle", "profiles": ["debug", "release"],
+             "args": {"kind": "safe"}},
+            {"name": "pa", "module": "pam", "quick": 2000, "thorough": 30000, "profiles": ["debug", "release"], "oracle_prefix": "o_c05"},
+            {"name": "rn", "module": "rn", "quick": 1000, "thorough": 20000, "profiles": ["debug"], "oracle_prefix": "o_rn"},
+            {"name": "pa_fixed", "module": "fixed", "quick": 0, "thorough": 0, "kind": "oracle", "profiles": ["debug", "release"]},
+        ],
+        "rule": "grammar-generated, mutated and extreme documents (huge declared counts, maximal numerals, deep/long lines) for all "
+                "seven parsers and literal types: the worker must return Ok or Err — no panic (debug build: overflow checks and debug "
+                "assertions on), no abort, no stack overflow, within a time limit — and the peak heap, measured by a counting "
+                "allocator, must stay below 64 x input length + 8 MiB; deep renumbering chains; non-trivial = at least 16 bytes",
+        "theorems_note": "Props/C05.v: refill loop terminates, reader histories safe, advance panics iff beyond the window, digit "
+                         "accumulation never wraps, varint length check, renumbering terminates and never panics",
+        "assumes": ["heap and stack are runtime behaviour: measured (partial)", "AIGER/BTOR2 parsers not modelled (oracle only)"],
+    },
+    "C06": {
+        "streams": [
+            {"name": "o_exp", "module": "pa", "quick": 3000, "thorough": 40000, "kind": "oracle", "profiles": ["debug", "release"],
+             "args": {"kind": "expect"}},
+            {"name": "limits", "module": "pa", "quick": 300, "thorough": 300, "kind": "oracle", "profiles": ["debug", "release"],
+             "args": {"kind": "limits"}},
+            {"name": "tx_digits", "module": "tx", "quick": 2000, "thorough": 20000, "profiles": ["debug", "release"], "args": {"kind": "digits"}},
+            {"name": "pa", "module": "pam", "quick": 2000, "thorough": 30000, "profiles": ["debug"], "oracle_prefix": "o_c01"},
+        ],
+        "rule": "values generated first, rendered with random layout, expected items computed independently of the parsers "
+                "(Python big integers); limit cases: every declared limit and every type limit at value-1, value, value+1 (literals vs "
+                "variable count, clause count vs clean end, groups, MAX_DIMACS per type, AIGER M/I/L/O/A/B/C/J/F and literal codes, "
+                "binary deltas), with and without ignore_header; digit scanners against the model on boundary numerals",
+        "theorems_note": "Props/C06.v: scanners return exactly the decimal value or None (all admissible runs), limits of the literal "
+                         "types fit, varint exact",
+        "assumes": ["limit enforcement of whole parsers: model = code (pa stream) + oracle, not yet theorems (partial)"],
+    },
+    "C07": {
+        "streams": [
+            {"name": "o_exp", "module": "pa", "quick": 4000, "thorough": 60000, "kind": "oracle", "profiles": ["debug", "release"],
+             "args": {"kind": "expect"}},
+            {"name": "pa", "module": "pam", "quick": 2500, "thorough": 40000, "profiles": ["debug"], "oracle_prefix": "o_c01"},
+        ],
+        "rule": "abstract values (header, clauses, solver log status/assignment) rendered with random layout choices: runs of "
+                "spaces/tabs, trailing blanks, blank lines, comment lines before the header / between clauses / inside a clause, "
+                "clauses split over lines, LF/CRLF, missing final newline, leading zeros, '-0' terminators, value lines split anywhere, "
+                "unknown lines when ignored; the parsed items must equal the abstract value; non-trivial = at least 16 bytes",
+        "theorems_note": "Props/C07.v: blank runs skipped whole, LF and CRLF, leading zeros, -0, numerals independent of the following byte",
+        "assumes": ["token-sequence dependence of the whole parsers: model = code (pa stream) + expectation oracle, not yet a theorem (partial)"],
+    },
+    "C08": {
+        "streams": [
+            {"name": "corrupt", "module": "pa", "quick": 3000, "thorough": 40000, "kind": "oracle", "profiles": ["debug", "release"],
+             "args": {"kind": "corrupt"}},
+            {"name": "limits", "module": "pa", "quick": 300, "thorough": 300, "kind": "oracle", "profiles": ["debug"],
+             "args": {"kind": "limits"}},
+            {"name": "o_c05", "module": "pa", "quick": 2000, "thorough": 30000, "kind": "oracle", "profiles": ["debug"],
+             "args": {"kind": "safe"}},
+            {"name": "pa", "module": "pam", "quick": 2500, "thorough": 40000, "profiles": ["debug"], "oracle_prefix": "o_c05"},
+            {"name": "pa_fixed", "module": "fixed", "quick": 0, "thorough": 0, "kind": "oracle", "profiles": ["debug"]},
+        ],
+        "rule": "well-formed documents of all seven formats with one known token replaced by garbage / an out-of-range number: the "
+                "reported line must be the token's line and the column must lie on the token; every syntax error of every mutated "
+                "document must lie inside the input (1 <= line <= lines+1, 1 <= column <= length of that line + 1); model and code must "
+                "agree on every error location of the DIMACS family and solver logs",
+        "theorems_note": "Props/C08.v: column formula of give_up*, line_at_offset",
+        "assumes": ["line/column invariant of whole parsers: model = code (pa stream) + location oracle, not yet a theorem (partial)",
+                    "known finding K1 (binary AIGER and-gate bytes 0x0A)"],
+    },
+    "C03": {
+        "streams": [
+            {"name": "o_rt", "module": "pa", "quick": 3000, "thorough": 40000, "kind": "oracle", "profiles": ["debug", "release"],
+             "args": {"kind": "rt"}},
+            {"name": "wr", "module": "wr", "quick": 1500, "thorough": 20000, "profiles": ["debug"], "oracle_prefix": "o_wr"},
+            {"name": "tx_digits", "module": "tx", "quick": 1500, "thorough": 20000, "profiles": ["debug"], "args": {"kind": "digits"}},
+            {"name": "pa_fixed", "module": "fixed", "quick": 0, "thorough": 0, "kind": "oracle", "profiles": ["debug"]},
+        ],
+        "rule": "documents of all formats parsed, written with the crate's writer, parsed again: the two values must be equal and "
+                "the second parse must end cleanly; values built through the public constructors (BTOR2 constants of all three "
+                "radixes incl. invalid strings) written and parsed; writer and digit scanner compared with the model",
+        "theorems_note": "Props/C03.v: decimal text read back exactly by every admissible scanner run; varint round trip; BTOR2 operator "
+                         "names = keywords (regenerated table)",
+        "assumes": ["whole-document round trips: oracle on the implementation (partial)"],
     },
 }
